@@ -223,6 +223,7 @@ struct FsFault
     int err = 0; // errno; | FS_ERR_STICKY: every later call that would create the same destination fails too
 };
 constexpr int FS_ERR_STICKY = 0x10000;
+constexpr int FS_ERR_SHORT_FIRST = 0x20000; // FS_WRITE: the chosen write transfers half of its bytes, the next write to that descriptor fails with err
 enum FsCall : int { FS_OPEN_CREATE = 0, FS_RENAMEAT2, FS_RENAME, FS_LINK, FS_UNLINK, FS_WRITE, FS_OPEN_ANY, FS_NCALLS };
 const char *fs_call_name(int c);
 
